@@ -33,7 +33,7 @@ meta("C11",
                   "transitivity follow because the proved relation is equality of views (derived, not a separate obligation). "
                   "The 'recomposed texts identical' half relies on C04/C07 (recomposition is injective on library-produced "
                   "objects) and is not re-proved here."),
-     assumptions=[LIBC_ASSUME, "ranges contain no NUL (wf_uri)", "list bound M and text bound L as in coverage.bounds"],
+     assumptions=["the DFCC contract of uriCompareRange is proved for two text ranges in distinct objects; aliasing ranges (two URIs borrowing from one buffer, same start address) are covered by the bounded EqualsUri obligations (shared-buffer mode) only", LIBC_ASSUME, "ranges contain no NUL (wf_uri)", "list bound M and text bound L as in coverage.bounds"],
      level_text=("harness-asserted contract of uriEqualsUri with the real uriCompareRange verified in place: TRUE <=> component-wise "
                  "identity, NULL rules, empty frame; bounded in list length and text length (quick 2/2, thorough 3/3), all contents "
                  "symbolic; uriCompareRange additionally under an unbounded function contract"),
